@@ -80,7 +80,7 @@ Lemma ins_res_len1 : forall A B fr v, zlen (ins_res A B fr [v]) = zlen A + 1 + z
 Proof.
   intros A B fr v. replace (zlen (ins_res A B fr [v])) with (zlen (map c_body (ins_res A B fr [v]))) by apply zlen_map.
   destruct (ins_res_shape seps sepsb A B fr [v]) as (Nc & B' & -> & E1 & E2).
-  rewrite !map_app, E1, E2, !zlen_app, !zlen_map. change (zlen [v]) with 1. lia.
+  apply tail_eq_bodies in E2. rewrite !map_app, E1, E2, !zlen_app, !zlen_map. change (zlen [v]) with 1. lia.
 Qed.
 
 Theorem ext_step_layout : forall pre pht A c B post v rest sbl fr,
@@ -134,7 +134,8 @@ Proof.
   split; [exact Hwf'|]. split; [exact Hl1|].
   split.
   { destruct (ins_res_shape seps sepsb A (del_tail A [c] B) fr [v]) as (Nc & B' & E & E1 & E2).
-    exists A, B, Nc, B'. repeat split; [exact E|exact E1|]. now rewrite E2, del_tail_bodies. }
+    exists A, B, Nc, B'. split; [reflexivity|]. split; [exact E|]. split; [exact E1|].
+    eapply tail_eq_trans; [apply del_tail_tail|exact E2]. }
   split.
   { intro HS. apply Sep_ins. rewrite <- del_res_tail. apply (Sep_del seps sepsb A [c] B). exact HS. }
   split.
